@@ -195,7 +195,9 @@ def stage_equivariance(ck):
         return (taus.tau_energy(c["beta"].copy(), c["logE"].copy(), c["u"].copy()),)
 
     def st_altdec(c):
-        return tuple(eas.altDec(c["beta"].copy(), c["tb"].copy(), c["tl"].copy(), c["u"].copy()))
+        ud = c["u"].copy()
+        ud[c["r1"] > 0.3] = 0.0  # an exact zero among the random numbers (infinite decay length): handled event by event like any other value
+        return tuple(eas.altDec(c["beta"].copy(), c["tb"].copy(), c["tl"].copy(), ud))
 
     def st_eas(c):
         v = {k: c[k] for k in ("beta", "alt", "E", "lat", "lon")}
